@@ -318,7 +318,7 @@ def x2_end_to_end(run, model, plats, lits):
                             spec = v1 if (p["defaultSign"] == ord("u") or v1 < 128) else v1 - 256
                             run.count("x2:char-spec", None, nontrivial=(pname, text, cpp), bucket="%s,%s" % (pname, "ok" if spec == impl[0] else "diff"))
                             if spec != impl[0]:
-                                run.violation("long-hex-escape-char-literal-unsigned-char-platform" if (p["defaultSign"] == ord("u") and v1 >= 128 and exp[1][:2] == b"\\x" and len(exp[1]) > 4) else "x2:charspec:%s:%s" % (pname, text),
+                                run.violation("x2:charspec:%s:%s" % (pname, text),
                                               "%s in a .%s file on %s (plain char %s): Known %d, the value is %d" % (text, ext, pname, "unsigned" if p["defaultSign"] == ord("u") else "signed", impl[0], spec),
                                               dict(where, expected=spec, oracle="clang -target armv7-linux-gnueabihf / gcc -funsigned-char: _Static_assert('\\xff' == 255)"))
     finally:
